@@ -403,7 +403,22 @@ def _r2(ctx):
     g = prog.func(MS + ":HaighDiagram.five_segment")
     want5 = {"M0": ("-inf", "0"), "M1": ("0", "R12"), "M2": ("R12", "R23"), "M3": ("R23", "1"), "M4": ("1", "inf")}
     seen = {}
-    for s in g.node.body:
+    from ..astutil import unroll_literal_loops, inline_single_defs as _isd5
+    named_tables = {s_.targets[0].id: s_.value for s_ in g.node.body if isinstance(s_, ast.Assign) and len(s_.targets) == 1 and
+                    isinstance(s_.targets[0], ast.Name) and isinstance(s_.value, (ast.List, ast.Tuple, ast.Dict))}
+    pre = []
+    for s_ in g.node.body:                  # a loop over a named literal table is a loop over the table
+        if isinstance(s_, ast.For) and isinstance(s_.iter, ast.Name) and s_.iter.id in named_tables:
+            s2 = ast.For(target=s_.target, iter=named_tables[s_.iter.id], body=s_.body, orelse=s_.orelse, lineno=s_.lineno, col_offset=0)
+            pre.append(s2)
+        elif isinstance(s_, ast.For) and isinstance(s_.iter, ast.Call) and isinstance(s_.iter.func, ast.Attribute) and \
+                s_.iter.func.attr == "items" and isinstance(s_.iter.func.value, ast.Name) and s_.iter.func.value.id in named_tables:
+            it2 = ast.Call(func=ast.Attribute(value=named_tables[s_.iter.func.value.id], attr="items", ctx=ast.Load()), args=[], keywords=[])
+            pre.append(ast.For(target=s_.target, iter=it2, body=s_.body, orelse=s_.orelse, lineno=s_.lineno, col_offset=0))
+        else:
+            pre.append(s_)
+    body5 = unroll_literal_loops(pre)
+    for s in body5:
         if isinstance(s, ast.Assign) and isinstance(s.targets[0], ast.Subscript) and isinstance(s.targets[0].value, ast.Attribute) \
                 and s.targets[0].value.attr == "iloc" and isinstance(s.targets[0].slice, ast.Name):
             loc = s.targets[0].slice.id
@@ -414,7 +429,7 @@ def _r2(ctx):
                 ctx.violated(g, s, "five-segment: rows %s receive %s, not the slope column at the same rows" % (loc, norm_text(v)))
                 continue
             k = v.value.value.attr
-            d = [x for x in g.node.body if isinstance(x, ast.Assign) and isinstance(x.targets[0], ast.Name) and x.targets[0].id == loc]
+            d = [x for x in body5 if isinstance(x, ast.Assign) and isinstance(x.targets[0], ast.Name) and x.targets[0].id == loc]
             iv = None
             if len(d) == 1:
                 c = [c_ for c_ in calls_in(d[0].value) if isinstance(c_.func, ast.Attribute) and c_.func.attr == "get_indexer_for"]
